@@ -146,13 +146,18 @@ def ufunc_oracle(ctx, args, kwargs, result, exc, pre):
         elif uf in (np.add, np.subtract):
             scale = max(scale, ma_ + mb_)
         bad = ~np.isclose(got, ref, rtol=1e-9, atol=1e-11 * scale, equal_nan=True)
+        if uf is np.divide:
+            # a numerator that interpolates to zero-up-to-rounding gives a quotient that is zero up to rounding: measured against
+            # (largest numerator) / |denominator| at that sample
+            bad &= np.abs(got - ref) > 1e-11 * ma_ / np.maximum(np.abs(vb), 1e-300)
     bad &= ~tie
     if uf is np.divide:     # a denominator that is zero to rounding: inf vs 1e16 are both 'the quotient'
         bad &= np.abs(vb) > 1e-9 * max(float(np.max(np.abs(ov))), 1e-300)
     if uf is np.power:      # 0**0 = 1 but 0**1e-17 = 0: base and exponent both zero to rounding is ill-conditioned
         # ... and 0**negative = inf but (1e-17)**negative is merely huge
-        bad &= ~((np.abs(va) <= 1e-9 * max(float(np.max(np.abs(sv))), 1e-300)) &
-                 (vb <= 1e-9 * max(float(np.max(np.abs(ov))), 1e-300)))
+        # ... and a base of 1e-14 raised to 0.3 is 6e-5: x**y with y < 1 has an infinite slope at x = 0, so a base that is zero to
+        # rounding is ill-conditioned whatever the exponent (for y >= 1 the result is zero to rounding anyway)
+        bad &= ~(np.abs(va) <= 1e-9 * max(float(np.max(np.abs(sv))), 1e-300))
         # a negative base has a real power only for exactly integer exponents: an interpolated exponent that is an integer
         # to rounding gives a number or NaN depending on the last bit (discontinuous everywhere, not evidence)
         bad &= ~(va < 0)
@@ -347,7 +352,7 @@ def workload(ctx, lentil):
                     if opn == 'divide':   # denominators that vanish to rounding are ill-conditioned, not evidence
                         tie = tie | (np.abs(ib_) <= 1e-9 * float(np.max(np.abs(vb))))
                     if opn == 'power':    # 0**0 versus 0**1e-17, 0**negative versus (1e-17)**negative
-                        tie = tie | ((np.abs(ia_) <= 1e-9 * float(np.max(np.abs(va)))) & (ib_ <= 1e-9 * float(np.max(np.abs(vb)))))
+                        tie = tie | (np.abs(ia_) <= 1e-9 * float(np.max(np.abs(va))))     # base zero to rounding: see the online oracle
                         tie = tie | (ia_ < 0)      # negative base: real only for exactly integer exponents (see the online oracle)
                     fin_ = np.isfinite(v1) & np.isfinite(v2)
                     sc_ = max(float(np.max(np.abs(v1[fin_]))) if fin_.any() else 1.0, 1e-300)
@@ -359,6 +364,9 @@ def workload(ctx, lentil):
                     elif opn in ('add', 'subtract'):
                         sc_ = max(sc_, ma_ + mb_)
                     okv = np.isclose(v1, v2, rtol=1e-8, atol=1e-11 * sc_, equal_nan=True) | tie
+                    if opn == 'divide':
+                        with np.errstate(all='ignore'):
+                            okv = okv | (np.abs(v1 - v2) <= 1e-11 * ma_ / np.maximum(np.abs(ib_), 1e-300))
                     same = bool(np.all(okv))
                     if not same:
                         kbad = int(np.argmin(okv))
